@@ -1642,7 +1642,9 @@ class Session:
         else:
             k = 1 + int(fault["u"] * n_events) % max(1, n_events)
             self.faults["F3_planned"] += 1
-            out2, _ = self.crash.run(call, k=k, exc=make_crash_exc("interrupt" if kind == "F3i" else "crash", f"{name}@{k}"))
+            tgt = self.crash.pick_stratified(fault["u"]) if fault.get("strat") else None
+            out2, _ = self.crash.run(call, k=None if tgt else k, target=tgt,
+                                     exc=make_crash_exc("interrupt" if kind == "F3i" else "crash", f"{name}@{tgt or k}"))
             if self.crash.fired:
                 self.faults["F3_fired"] += 1
                 if not isinstance(out2[1], (SimCrash, SimInterrupt)):
@@ -1761,7 +1763,9 @@ class Session:
                 self.probes.hit("compile_internal_error_" + type(ref[1]).__name__)
         if fault:
             k = 1 + int(fault["u"] * n) % max(1, n)
-            out2, _ = self.crash.run(comp, k=k, exc=make_crash_exc("interrupt" if fault["kind"] == "F3i" else "crash", f"compile@{k}"))
+            tgt = self.crash.pick_stratified(fault["u"]) if fault.get("strat") else None
+            out2, _ = self.crash.run(comp, k=None if tgt else k, target=tgt,
+                                     exc=make_crash_exc("interrupt" if fault["kind"] == "F3i" else "crash", f"compile@{tgt or k}"))
             if self.crash.fired:
                 self.faults["compile_crash"] += 1
             self.log.log("fault", f="compile-crash", k=k, fired=self.crash.fired, at=self.crash.fired_at)
@@ -1926,7 +1930,7 @@ def generate_and_run(seed: int, cfg: dict, log_keep=False) -> dict:
         if not forced_op and r_ops.random() < cfg.get("compile_rate", 0.0):
             rec = {"op": "compile", "on": pid, "out": None, "args": [], "kw": {}}
             if r_fault.random() < max(fault_rate, cfg.get("compile_fault_rate", 0.0)):
-                rec["fault"] = {"kind": r_fault.choice(["F3c", "F3i"]), "u": r_fault.random()}
+                rec["fault"] = {"kind": r_fault.choice(["F3c", "F3i"]), "u": r_fault.random(), "strat": r_fault.random() < 0.5}
             data["ops"].append(rec)
             S.apply(rec)
             if S.viol and not cfg.get("survey"):
@@ -1971,7 +1975,7 @@ def generate_and_run(seed: int, cfg: dict, log_keep=False) -> dict:
         k += 1
         rec = {"op": name, "on": pid, "out": f"r{k}", "args": args, "kw": kw, "stale": stale}
         if r_fault.random() < fault_rate:
-            rec["fault"] = {"kind": r_fault.choice(fault_kinds), "u": r_fault.random()}
+            rec["fault"] = {"kind": r_fault.choice(fault_kinds), "u": r_fault.random(), "strat": r_fault.random() < 0.5}
         data["ops"].append(rec)
         n_before = len(S.procs)
         S.apply(rec)
